@@ -1505,7 +1505,7 @@ class Exec:
                 trait_arg = type_head(split_top(ta)[0]) if ta else None
             name = m.group(3)
         else:
-            segs = split_top(c, "::")
+            segs = [x for x in split_top(c, "::") if not re.fullmatch(r"<'[^>]*>", x)]
             name = segs[-1]
             if len(segs) > 1:
                 tyname = type_head(re.sub(r"^<|>$", "", segs[-2])) if not segs[-2].startswith("<impl") else None
